@@ -27,7 +27,16 @@ def generate(tier, seed):
     rng = C.rng_for(seed, "C11")
     lines = []
     nt = set()
-    combos = [(c, a, b) for c in CALLS for a in LISTS for b in (LISTS if tier == "thorough" else rng.sample(LISTS, 3))]
+    # every call also with its first list argument wrapped in a FRESH cons whose tail is the variable's list, and with
+    # the variable's list reached through an accessor: sharing a tail with a temporary must not expose the tail to mutation
+    calls = list(CALLS)
+    for c in CALLS:
+        if "A" in c and not c.startswith("`"):
+            calls.append(c.replace("A", "(cons 'z A)", 1))
+            calls.append(c.replace("A", "(cdr (cons 'z A))", 1))
+        if "B" in c and not c.startswith("`"):
+            calls.append(c.replace("B", "(cons 'z B)", 1))
+    combos = [(c, a, b) for c in calls for a in LISTS for b in (LISTS if tier == "thorough" else rng.sample(LISTS, 2))]
     for call, a, b in combos:
         e = call.replace("A", "la").replace("B", "lb")
         lines += ["NEW", "EVAL (setq la '%s) (setq lb '%s) (setq keep la)" % (a, b)]
